@@ -354,6 +354,12 @@ func c15Serve(w *World) func(ft *FakeTarget, c net.Conn) {
 }
 
 func c15Run(t *testing.T, run *Run, sc c15Scenario) {
+	// the proxy's temporary files (spilled buffers) go to a directory of this scenario's own
+	Fixtures() // (created once, under the TMPDIR of the process, before that is redirected)
+	tmp := t.TempDir()
+	oldTmp := os.Getenv("TMPDIR")
+	os.Setenv("TMPDIR", tmp)
+	defer os.Setenv("TMPDIR", oldTmp)
 	w := NewWorld(t, WorldOpt{})
 	defer w.Close()
 	w.MaxClientLife = 10 * time.Minute
@@ -372,6 +378,9 @@ func c15Run(t *testing.T, run *Run, sc c15Scenario) {
 	to := DefTO
 	to.ResponseTimeout = c15Timeout
 	to.BufferRequests, to.BufferResponses = sc.BufReq, sc.BufResp
+	if sc.Idx%2 == 1 {
+		to.MaxMemoryBufferSize = 4 // whatever a buffering service receives beyond four bytes is spilled to a file
+	}
 	so2 := so
 	so2.Hosts = []string{"refused.example"}
 	if sc.Idx%2 == 0 {
@@ -527,6 +536,11 @@ func c15Run(t *testing.T, run *Run, sc c15Scenario) {
 	}
 	w.Resume("svc")
 	if !healthy("final") {
+		return
+	}
+	time.Sleep(2 * time.Second)
+	if n, size := c14Spills(tmp); n != 0 {
+		fail("residue:spill-file", "%d temporary buffer files (%d bytes) are left after every request has ended (buffering: requests %v, responses %v, buffer-memory %d)", n, size, sc.BufReq, sc.BufResp, to.MaxMemoryBufferSize)
 		return
 	}
 	run.Count("faults_checked", len(sc.Faults))
